@@ -10,6 +10,11 @@ actually put on the wire, the frame / microframe numbers and the strobes.
 Timing: the statement gives no latency, so every well-formed SOF owns a window of WINDOW cycles starting at the
 cycle rx_active falls; the strobes must occur inside it and the numbers must hold their new value from the end of
 the window until the next well-formed SOF ends (the real latency is 1-2 cycles).
+
+Receive data bus: UTMI defines rx_data only while rx_valid is high.  In most runs the host therefore puts scenario-chosen
+junk on rx_data in every cycle with rx_valid low (before the first byte, in rx_valid gaps, in the cycles between the last
+byte and the fall of rx_active, in the cycle rx_active falls and between packets) -- models.utmi_idle_data.  The numbers
+predicted by the oracle depend only on the bytes transferred with rx_valid high.
 """
 
 import hashlib
@@ -17,6 +22,7 @@ import hashlib
 from dsim.kernel import Violations
 from models import usb2
 from models.usb2 import UTMIHost, token_packet, data_packet, sof_packet, handshake_packet, apply_fault, parse_token
+from models.utmi_idle_data import UTMIHostIdleData
 from engines.usb2_device import device_bench, IDLE_INIT
 
 PROPERTY = "C21"
@@ -30,19 +36,23 @@ RULES = {
     "C21.sof_detected_per_sof": "sof_detected strobes (one cycle) once per well-formed SOF and never otherwise",
 }
 PROBES = ["wrap_2047_to_0", "repeat_frame", "microframe_wrap_8", "skip_frames", "malformed_sof", "sof_right_after_malformed",
-          "sof_equal_to_initial_frame", "device_response_interleaved", "sof_short_gap_to_next_packet"]
+          "sof_equal_to_initial_frame", "device_response_interleaved", "sof_short_gap_to_next_packet",
+          "idle_rx_data_differs_in_packet", "idle_rx_data_differs_at_rx_active_fall", "sof_ok_with_idle_rx_data_junk"]
 META = {
     "components_real": ["USBDevice (frame/microframe logic)", "USBTokenDetector", "USBControlEndpoint + StandardRequestHandler",
                         "USBStreamInEndpoint", "USBHandshakeGenerator", "USBInterpacketTimer"],
-    "components_stubbed": ["UTMI PHY + host (models.usb2.UTMIHost)"],
+    "components_stubbed": ["UTMI PHY + host (models.usb2.UTMIHost via models.utmi_idle_data.UTMIHostIdleData)"],
     "assumptions": ["legal UTMI receive side: rx_valid only while rx_active; rx_active rises >= 1 cycle before the first byte and "
-                    "falls between packets", "the host does not transmit while the device transmits",
+                    "falls between packets; rx_data is arbitrary (scenario literal) whenever rx_valid is low",
+                    "the host does not transmit while the device transmits",
                     "consecutive well-formed SOFs end more than 8 cycles apart (strobe attribution window)",
                     "'changes' is relative to the frame number reported before the SOF (0 after power-up)",
                     "no bus reset inside a run (the statement does not say what a reset does to the counters)"],
     "rule": "history of 8-40 host packets: SOFs whose numbers follow increment/repeat/skip/wrap/jump patterns, a share of them "
             "corrupted (corrupt_bit, truncate, extend, bad_pid_nibble, abort_rx), interleaved with foreign tokens, IN/PING tokens "
-            "to the device (answered), handshakes, data packets and garbage; byte period, gaps, tx_ready pattern and variant per run",
+            "to the device (answered), handshakes, data packets and garbage; byte period, gaps, tx_ready pattern and variant per run; "
+            "rx_data while rx_valid is low per run: held last byte (20 %), constant, last byte xor mask, or a cyclic list of "
+            "literal junk bytes changing every cycle",
 }
 TIERS = {"quick": {"runs": 4000, "wall": 70}, "thorough": {"runs": 24000, "wall": 900}}
 
@@ -86,6 +96,18 @@ def _other(rng):
     return {"op": "pkt", "bytes": raw.hex(), "what": k, "gap": rng.choice([1, 1, 2, 3, 6, 12])}
 
 
+def _idle_data(rng):
+    """ what the PHY shows on rx_data while rx_valid is low (undefined by UTMI) """
+    r = rng.random()
+    if r < 0.2:
+        return None                                             # holds the last byte
+    if r < 0.4:
+        return ["const", rng.choice([0x00, 0x00, 0xFF, rng.getrandbits(8)])]
+    if r < 0.6:
+        return ["xor", rng.choice([0xFF, 1 << rng.randrange(8), rng.randint(1, 255)])]
+    return ["list", [rng.getrandbits(8) for _ in range(rng.choice([1, 2, 3, 5, 7, 11]))]]
+
+
 def gen(rng, tier, index):
     cfg = {
         "variant": rng.choice(["V1", "V2"]),
@@ -97,6 +119,7 @@ def gen(rng, tier, index):
         "txready": rng.choice(["always", "always", ["every", 2], ["every", 3],
                                ["list", [rng.getrandbits(1) | (i == 0) for i in range(7)]]]),
     }
+    cfg["idle_data"] = _idle_data(rng)
     fault_free = rng.random() < 0.15
     p_fault = 0.0 if fault_free else rng.choice([0.1, 0.2, 0.35])
     p_other = rng.choice([0.0, 0.15, 0.3, 0.5])
@@ -208,7 +231,7 @@ def run(scn):
             yield from h.idle(gap)
         yield from h.idle(WINDOW + 4)
 
-    host = UTMIHost(script, byte_period=cfg["byte_period"], pre=cfg["pre"], post=cfg["post"], gap_pattern=cfg["gaps"],
+    host = UTMIHostIdleData(script, idle_data=cfg.get("idle_data"), byte_period=cfg["byte_period"], pre=cfg["pre"], post=cfg["post"], gap_pattern=cfg["gaps"],
                     txready=(cfg["txready"] if cfg["txready"] == "always" else tuple(cfg["txready"])))
     max_cycles = 400 + sum(30 * (cfg["byte_period"] + 4) + 2 * timeout + op.get("gap", 0) + op.get("n", 0) for op in ops)
     log = bench.run([host, mon], max_cycles, init=init)
@@ -216,6 +239,9 @@ def run(scn):
         raise RuntimeError("host script did not finish within the cycle cap")
     if host.tx_during_rx:
         raise RuntimeError("harness: device transmitted while the host was sending (host model not legal here)")
+
+    probes["idle_rx_data_differs_in_packet"] = host.idle_data_in_packet
+    probes["idle_rx_data_differs_at_rx_active_fall"] = host.idle_data_at_end
 
     # ---- oracle -----------------------------------------------------------------------------------------------
     n = log.cycles
@@ -229,6 +255,8 @@ def run(scn):
         if tok is not None and tok[0] == "SOF":
             sofs.append((t1, tok[1], k, prev_class))
             cls = "sof_ok"
+            if host.idle_data is not None:
+                probes["sof_ok_with_idle_rx_data_junk"] += 1
             if prev_class == "sof_bad":
                 probes["sof_right_after_malformed"] += 1
             if k + 1 < len(rx) and rx[k + 1][1] - t1 <= 3:
